@@ -184,6 +184,7 @@ type poolAsyncRunHandle struct {
 	poolCtx             context.Context // Pool Run context. Done only when nobody reads await errors anymore.
 	runCtx              context.Context
 	runCancel           context.CancelFunc
+	aggregatorCancel    context.CancelFunc
 	instanceStartCtx    context.Context
 	instanceStartCancel context.CancelFunc
 
@@ -199,6 +200,10 @@ func (p *instancePool) runAsync(runCtx context.Context) (*poolAsyncRunHandle, er
 	// Canceled in case all instances finish, fail or run runCancel.
 	runCtx, runCancel := context.WithCancel(runCtx)
 	_ = runCancel
+	// Aggregator is not canceled together with the run: instances still report shots in flight.
+	// It is canceled only when all instance runs have been awaited.
+	aggregatorCtx, aggregatorCancel := context.WithCancel(context.WithoutCancel(runCtx))
+	_ = aggregatorCancel
 	// Canceled also on out of ammo, and finish of shared RPS schedule.
 	instanceStartCtx, instanceStartCancel := context.WithCancel(runCtx)
 	newInstanceSchedule, err := p.buildNewInstanceSchedule(instanceStartCtx, instanceStartCancel)
@@ -220,7 +225,7 @@ func (p *instancePool) runAsync(runCtx context.Context) (*poolAsyncRunHandle, er
 	}()
 	go func() {
 		deps := core.AggregatorDeps{Log: p.log}
-		aggregatorErr <- p.Aggregator.Run(runCtx, deps)
+		aggregatorErr <- p.Aggregator.Run(aggregatorCtx, deps)
 	}()
 	go func() {
 		started, err := p.startInstances(instanceStartCtx, runCtx, newInstanceSchedule, runRes)
@@ -230,6 +235,7 @@ func (p *instancePool) runAsync(runCtx context.Context) (*poolAsyncRunHandle, er
 		poolCtx:             poolCtx,
 		runCtx:              runCtx,
 		runCancel:           runCancel,
+		aggregatorCancel:    aggregatorCancel,
 		instanceStartCtx:    instanceStartCtx,
 		instanceStartCancel: instanceStartCancel,
 		providerErr:         providerErr,
@@ -348,6 +354,7 @@ func (ah *runAwaitHandle) checkAllInstancesAreFinished() {
 	ah.toWait--
 	ah.log.Info("All instances runs awaited.", zap.Int("awaited", ah.awaitedInstances))
 	ah.runCancel() // Signal to provider and aggregator, that pool run is finished.
+	ah.aggregatorCancel()
 
 }
 
